@@ -159,7 +159,16 @@ pub fn dev_state(matter: &Matter<'_>) -> DevState {
                 root_hash: hash_bytes(f.root_ca()),
                 noc_hash: hash_bytes(f.noc()),
                 icac_hash: hash_bytes(f.icac()),
-                acl: f.acl_iter().map(|a| format!("{a:?}")).collect(),
+                acl: f
+                    .acl_iter()
+                    .map(|a| {
+                        format!(
+                            "{a:?} subjects={:?} targets={:?}",
+                            a.subjects().into_option().map(|s| s.to_vec()),
+                            a.targets().into_option().map(|t| t.to_vec())
+                        )
+                    })
+                    .collect(),
             })
             .collect()
     });
@@ -335,6 +344,12 @@ pub enum CtlStep {
     SleepUntil { ms: u32 },
     /// Abandon the rest of the script if it is later than the given (controller-local) time
     StopIfAfter { ms: u32 },
+    /// ArmFailSafe over our CASE session; fails unless the device answers OK
+    ArmFailSafeChecked { dev: usize, secs: u16 },
+    /// CommissioningComplete over our CASE session; fails unless the device answers OK
+    CommissioningCompleteCase { dev: usize },
+    /// Replace our fabric's ACL over CASE by [administer: our node id, operate: `subject`]
+    AclWrite { dev: usize, subject: u64 },
 }
 
 pub struct ControllerCtx {
@@ -550,6 +565,9 @@ async fn controller_script<C: Crypto>(matter: &Matter<'_>, crypto: &C, ctx: &Con
             CtlStep::Sleep { .. } => "sleep",
             CtlStep::SleepUntil { .. } => "sleep",
             CtlStep::StopIfAfter { .. } => "stop",
+            CtlStep::ArmFailSafeChecked { .. } => "arm_failsafe_checked",
+            CtlStep::CommissioningCompleteCase { .. } => "commissioning_complete_case",
+            CtlStep::AclWrite { .. } => "acl_write",
         };
         log_ev(&ctx.log, ctx.node, ctx.incarnation, FullKind::Step { name, result: None });
         let r: Result<(), Error> = match step {
@@ -710,6 +728,97 @@ async fn controller_script<C: Crypto>(matter: &Matter<'_>, crypto: &C, ctx: &Con
                 Ok(())
             }
             CtlStep::StopIfAfter { .. } => Ok(()),
+            CtlStep::ArmFailSafeChecked { dev, secs } => {
+                async {
+                    use rs_matter::dm::clusters::decl::general_commissioning::{CommissioningErrorEnum, GeneralCommissioningClient};
+                    let exchange = Exchange::initiate(matter, crypto, fab_idx, device_node_id(*dev)).await?;
+                    let secs = *secs;
+                    let handle = exchange
+                        .general_commissioning()
+                        .arm_fail_safe(0, |req| req.expiry_length_seconds(secs)?.breadcrumb(7)?.end())
+                        .await?;
+                    let code = handle.response()?.error_code()?;
+                    handle.complete().await?;
+                    log_ev(&ctx.log, ctx.node, ctx.incarnation, FullKind::Note(format!("arm_fail_safe -> {code:?}")));
+                    if code != CommissioningErrorEnum::OK {
+                        return Err(rs_matter::error::ErrorCode::Failure.into());
+                    }
+                    Ok(())
+                }
+                .await
+            }
+            CtlStep::CommissioningCompleteCase { dev } => {
+                async {
+                    use rs_matter::dm::clusters::decl::general_commissioning::{CommissioningErrorEnum, GeneralCommissioningClient};
+                    let exchange = Exchange::initiate(matter, crypto, fab_idx, device_node_id(*dev)).await?;
+                    let handle = exchange.general_commissioning().commissioning_complete(0).await?;
+                    let code = handle.response()?.error_code()?;
+                    handle.complete().await?;
+                    log_ev(&ctx.log, ctx.node, ctx.incarnation, FullKind::Note(format!("commissioning_complete -> {code:?}")));
+                    if code != CommissioningErrorEnum::OK {
+                        return Err(rs_matter::error::ErrorCode::Failure.into());
+                    }
+                    Ok(())
+                }
+                .await
+            }
+            CtlStep::AclWrite { dev, subject } => {
+                async {
+                    use rs_matter::dm::clusters::decl::access_control::{
+                        AccessControlAttrWrites as _, AccessControlEntryAuthModeEnum, AccessControlEntryPrivilegeEnum,
+                    };
+                    use rs_matter::im::client::ImClient as _;
+                    let exchange = Exchange::initiate(matter, crypto, fab_idx, device_node_id(*dev)).await?;
+                    let me = ctx.node_id;
+                    let other = *subject;
+                    let handle = exchange
+                        .write_with(None, |builder| {
+                            let entries = builder.write_requests()?;
+                            let acl = entries.access_control_write().acl(0)?;
+                            let acl = acl
+                                .push()?
+                                .privilege(Some(AccessControlEntryPrivilegeEnum::Administer))?
+                                .auth_mode(Some(AccessControlEntryAuthModeEnum::CASE))?
+                                .subjects()?
+                                .some()?
+                                .non_null()?
+                                .push(&me)?
+                                .end()?
+                                .targets()?
+                                .some()?
+                                .null()?
+                                .auxiliary_type(None)?
+                                .fabric_index(None)?
+                                .end()?;
+                            let acl = acl
+                                .push()?
+                                .privilege(Some(AccessControlEntryPrivilegeEnum::Operate))?
+                                .auth_mode(Some(AccessControlEntryAuthModeEnum::CASE))?
+                                .subjects()?
+                                .some()?
+                                .non_null()?
+                                .push(&other)?
+                                .end()?
+                                .targets()?
+                                .some()?
+                                .null()?
+                                .auxiliary_type(None)?
+                                .fabric_index(None)?
+                                .end()?;
+                            acl.end()?.end()?.end()?.end()
+                        })
+                        .await?;
+                    let resp = handle.response()?;
+                    for status in resp.write_responses.iter() {
+                        let status = status?;
+                        if status.status.status != rs_matter::im::IMStatusCode::Success {
+                            return Err(rs_matter::error::ErrorCode::Failure.into());
+                        }
+                    }
+                    Ok(())
+                }
+                .await
+            }
         };
         log_ev(
             &ctx.log,
